@@ -1,6 +1,6 @@
 (* C09 -- Automatic mode is the most compact mode that can represent the input. *)
 From Coq Require Import NArith List Bool Arith.
-From FQ Require Import Model.Types Model.Encode Model.Qr Spec.Iso Spec.Oracles Proofs.BestEncoding Proofs.Build.
+From FQ Require Import Proofs.PropLemmas Model.Types Model.Encode Model.Qr Spec.Iso Spec.Oracles Proofs.BestEncoding Proofs.Build.
 Import ListNotations.
 
 Theorem C09_best_encoding_spec : forall input, best_encoding input = mode_of_idx (oracle_mode input).
@@ -35,7 +35,7 @@ Print Assumptions C09_table5.
 
 (* with no mode forced, build uses best_encoding *)
 Theorem C09_build_uses_it : forall input o q, o_mode o = None -> build input o = Ok q -> q_mode q = best_encoding input.
-Proof. intros input o q Hm H. destruct (build_ok_fields input o q H) as (A & _). rewrite A. unfold eff_mode. now rewrite Hm. Qed.
+Proof. exact build_uses_it_c09. Qed.
 Print Assumptions C09_build_uses_it.
 
 Example C09_examples : best_encoding [] = Numeric /\ best_encoding [49; 50]%N = Numeric
